@@ -121,7 +121,8 @@ def plan(tier, vs):
             jobs.append((name, 1 if tier == 'quick' else 2, 1 if tier == 'quick' else 2))
             continue
         if f[0] == 'busy':
-            jobs.append((name, 2 if tier == 'quick' else 3, 1 if tier == 'quick' else 2))
+            heavy = (f[1] == 'W2' and '+' in f[2])      # two workers + threads B and G: bound 3 does not finish within the job deadline
+            jobs.append((name, 2 if (tier == 'quick' or heavy) else 3, 1 if tier == 'quick' else 2))
             continue
         start, infl, shut, wait = f[2], f[3], f[4], f[5]
         if tier == 'quick':
